@@ -99,7 +99,10 @@ def run_config(rep, binary, name, params, mode, max_states=None, rnd=None, conc_
         k += 1
         if mode == "edges":
             refused = probes_of.get(pre, [])
-            jobs.append(Job("edge", h[:-1] + refused + [h[-1]], s, conc, key, len(refused)))
+            # refused calls before AND after the transition (those of the destination state, when it is a known state):
+            # "refused, accepted, refused" histories, e.g. inside one iterator transaction
+            after = [dict(x) for x in probes_of.get(key, [])][:12]
+            jobs.append(Job("edge", h[:-1] + refused + [h[-1]] + after, s, conc, key, len(refused) + len(after)))
         elif key not in tree:
             jobs.append(Job("edge", h, s, conc, key, 0))
     if max_states and len(jobs) > max_states:
